@@ -6,8 +6,15 @@
     each step), and `run_coroutine` on a worker with all endings of a coroutine.
   * `Model/Scope.lean`: the Join handshake with the result / panic slots, for any number of coroutines and scopes.
   The replay machines of the families `panic` (both models side by side) and `scope` execute these step functions.
-  Assumption of every theorem here (known finding F10, pending_fixes/README-C14.md): `thread::panicking()` tells a
-  coroutine whether *it* is unwinding.
+  Assumption of every theorem here (finding F10, pending_fixes/README-C14.md): `thread::panicking()` tells a coroutine
+  whether *it* is unwinding. std keeps that flag per thread, so it is true of the code only as long as no coroutine is
+  suspended while it unwinds. Since F10.patch the scope exits (`coroutine::scope`, `cqueue::scope`) catch the owner's
+  panic before they wait; the assumption is checked on every run by the `F10:` probe of the families `scope`, `panic`,
+  `panicscope`, `paniccq` (code that is not unwinding never observes `thread::panicking()`), which are strict.
+  In `Model/Scope.lean` `unw ≠ no` while an actor runs the dtors reads "a payload is on its way to the caller of `scope`":
+  before the patch the dtors run inside that unwind (`Drop for Scope`), since the patch `scope` has caught the payload, runs
+  every dtor under `catch_unwind` with no unwind in flight (the first payload is kept) and resumes it afterwards. The
+  operations, their order and the precedence of the payloads are the same, so one step function describes both trees.
 -/
 import MayVerif.Proof.Runtime.PanicLocks
 import MayVerif.Proof.Scope.InvH2Step
